@@ -64,11 +64,44 @@ def _case(s, k, rng):
         ri_raw = np.asarray(sample_hdi(np.array([big + 100 * int(v) for v in s], dtype=np.int64), f), dtype=float).ravel()
         vals = sorted(set(int(v) for v in s))
         ric = [[a_, b_] for a_ in vals for b_ in vals if ri_raw.shape == (2,) and float(big + 100 * a_) == ri_raw[0] and float(big + 100 * b_) == ri_raw[1]]
+        # ... and beyond 2^63 as uint64 (2^63 + 100 x): the same candidates must be compatible with that result too
+        bigu = 2 ** 63
+        ru_raw = np.asarray(sample_hdi(np.array([bigu + 100 * int(v) for v in s], dtype=np.uint64), f), dtype=float).ravel()
+        ric = [pr for pr in ric if ru_raw.shape == (2,) and float(bigu + 100 * pr[0]) == ru_raw[0] and float(bigu + 100 * pr[1]) == ru_raw[1]]
         if not ric:
             ric = [[-996, -996]]
     unchanged = bool(np.array_equal(arr, keep) and np.array_equal(flt, keepf) and np.array_equal(two, keep2)
                      and arr.shape == keep.shape and two.shape == keep2.shape)
     return {"s": [int(v) for v in s], "k": int(k), "r": r, "same": same, "rp": rp, "ra": ra, "a": a, "b": b, "unchanged": unchanged, "rf": rf, "ric": ric}
+
+
+def large_part(ck):
+    """samples with more than 2^16 candidate windows (and more than 2^17 points): the shortest window, found independently"""
+    from inference.pdf.hdi import sample_hdi
+    rng = np.random.default_rng(seed() + 131)
+    for n, f, where in ((140001, 0.5, 0.1), (140001, 0.5, 0.8), (300000, 0.25, 0.3), (70000, 0.05, 0.55)):
+        # a uniform background with one denser stretch placed at a chosen quantile: the shortest window lies there
+        x = rng.uniform(0.0, 1.0, size=n)
+        m = int(0.3 * n)
+        x[:m] = where + 0.05 * rng.uniform(0.0, 1.0, size=m)
+        rng.shuffle(x)
+        keep = x.copy()
+        ck.case(("large", n, f, where))
+        try:
+            lo, hi = (float(v) for v in np.asarray(sample_hdi(x, f), dtype=float).ravel())
+        except Exception as ex:
+            ck.violation("sample_hdi raised on a large sample", {"n": n, "fraction": f, "error": repr(ex)[:200]}, site="sample_hdi:large")
+            continue
+        srt = np.sort(keep)
+        inside = int(np.sum((srt >= lo) & (srt <= hi)))
+        # the shortest window holding as many points as the returned one (any correct answer is at most that long)
+        best = float(np.min(srt[inside - 1:] - srt[:n - inside + 1]))
+        ok = (lo in set(srt[[np.searchsorted(srt, lo)]].tolist()) and hi in set(srt[[min(np.searchsorted(srt, hi), n - 1)]].tolist())
+              and inside >= f * n and (hi - lo) <= best * (1 + 1e-12) and np.array_equal(x, keep))
+        if not ok:
+            ck.violation("Good: end points are sample values, at least the requested fraction inside, no shorter interval with as many points (large sample)",
+                         {"n": n, "fraction": f, "candidate_windows": n - int(f * n), "returned": [lo, hi], "points_inside": inside, "requested": f * n,
+                          "length": hi - lo, "shortest_with_as_many": best}, site="sample_hdi:large")
 
 
 def run(tier):
@@ -125,4 +158,5 @@ def run(tier):
                      site="sample_hdi")
     ck.sample({"part": "hdi", "sample": events[len(events) // 2]["s"], "fraction": events[len(events) // 2]["k"] / 16,
                "returned": events[len(events) // 2]["r"]})
+    large_part(ck)
     return ck.finish()
